@@ -524,6 +524,23 @@ func (en *env) tryAddrOf(e ast.Expr) (tv TV, ok bool) {
 	return en.addrOf(e), true
 }
 
+// tryEvalTyped evaluates e at type t; any failure (e.g. an unknown identifier) is reported as !ok.
+func (en *env) tryEvalTyped(e ast.Expr, t types.Type) (tv TV, ok bool) {
+	defer func() {
+		if x := recover(); x != nil {
+			if _, isU := x.(unsupported); isU {
+				ok = false
+				return
+			}
+			panic(x)
+		}
+	}()
+	savedFacts := en.r.facts
+	tv = en.coerceTo(en.eval(e, t), t)
+	en.r.facts = savedFacts
+	return tv, true
+}
+
 // tryEval evaluates e without a type hint; failures (ill-typed without context) are reported as !ok.
 func (en *env) tryEval(e ast.Expr) (tv TV, ok bool) {
 	defer func() {
@@ -648,6 +665,11 @@ func (en *env) call(x *ast.CallExpr, want types.Type) TV {
 				return TV{V: Scalar{c.True()}, T: types.Typ[types.Bool]}
 			}
 			return TV{V: Scalar{c.Implies(ante, en.evalBool(x.Args[1]))}, T: types.Typ[types.Bool]}
+		case "payload":
+			// payload(x): the reference boxed in interface value x (identity of the dynamic value)
+			a := en.eval(x.Args[0], nil)
+			iv := r.asIface(a.V)
+			return TV{V: Scalar{iv.Ref}, T: &RawSort{S: smt.Int}}
 		case "apply":
 			// apply(f, args...): application of a function value, the same uninterpreted pure application
 			// the executor uses for calls through function values
